@@ -39,9 +39,21 @@ package bastion
 //@   let input     := old(rd_buf[refOf(r)])
 //@   let wellFormed := input == "old " ++ fmt_du(G_n()) ++ "\n" ++ encRest(G_row(), G_off(), 0, G_k(), G_cp())
 //@                     && !rd_err[refOf(r)] && G_k() < 1000000 && (forall j int :: 0 <= j && j < G_k() ==> len(G_row()[G_off() + j]) > 0)
+//@   // the same request with its (G_j+1)-th proof line replaced by G_bad: a non-empty line that is not base64
+//@   let badLine   := input == "old " ++ fmt_du(G_n()) ++ "\n" ++ encBad(G_row(), G_off(), 0, G_j(), G_bad(), G_tail())
+//@                     && !rd_err[refOf(r)] && G_j() < 1000000 && (forall j int :: 0 <= j && j < G_j() ==> len(G_row()[G_off() + j]) > 0)
+//@                     && noNL(G_bad()) && len(G_bad()) > 0 && !isB64(G_bad())
+//@   // a request that ends before the blank separator: G_j whole proof lines, then a possibly empty unterminated piece
+//@   let truncated := input == "old " ++ fmt_du(G_n()) ++ "\n" ++ encTr(G_row(), G_off(), 0, G_j(), G_part())
+//@                     && !rd_err[refOf(r)] && G_j() < 1000000 && (forall j int :: 0 <= j && j < G_j() ==> len(G_row()[G_off() + j]) > 0)
+//@                     && noNL(G_part())
 //@   modifies rd_buf, rd_err
 //@   ghostmodifies n_pb
 //@   ensures[ghost] n_pb == old(n_pb) + 1
+//@   // a proof line that is not base64 is refused, wherever it stands and whatever follows it
+//@   ensures[C11.b] badLine ==> err != nil
+//@   // input that ends before the blank separator is refused
+//@   ensures[C11.t] truncated ==> err != nil
 //@   // what was written parses back to exactly that: old size, hashes in order, checkpoint bytes
 //@   ensures[C11.rt] wellFormed ==> err == nil && size == G_n() && len(proof) == G_k() && str(cp) == G_cp()
 //@   ensures[C11.rt] wellFormed ==> (forall j int :: 0 <= j && j < G_k() ==> str(proof[j]) == str(G_row()[G_off() + j]))
@@ -59,7 +71,19 @@ package bastion
 //@   hint#1 b64_len(str(G_row()[G_off() + len(proof)]))
 //@   hint#1 line_1(b64enc(str(G_row()[G_off() + len(proof)])), encRest(G_row(), G_off(), len(proof) + 1, G_k(), G_cp()))
 //@   hint#1 line_0(G_cp())
+//@   hint line_1("old " ++ fmt_du(G_n()), encBad(G_row(), G_off(), 0, G_j(), G_bad(), G_tail()))
+//@   hint#1 encBad_step(G_row(), G_off(), len(proof), G_j(), G_bad(), G_tail())
+//@   hint#1 encBad_end(G_row(), G_off(), len(proof), G_j(), G_bad(), G_tail())
+//@   hint#1 line_1(b64enc(str(G_row()[G_off() + len(proof)])), encBad(G_row(), G_off(), len(proof) + 1, G_j(), G_bad(), G_tail()))
+//@   hint#1 line_1(G_bad(), G_tail())
+//@   hint line_1("old " ++ fmt_du(G_n()), encTr(G_row(), G_off(), 0, G_j(), G_part()))
+//@   hint#1 encTr_step(G_row(), G_off(), len(proof), G_j(), G_part())
+//@   hint#1 encTr_end(G_row(), G_off(), len(proof), G_j(), G_part())
+//@   hint#1 line_1(b64enc(str(G_row()[G_off() + len(proof)])), encTr(G_row(), G_off(), len(proof) + 1, G_j(), G_part()))
+//@   hint#1 line_last(G_part())
 //@   invariant#1 proof != nil && len(proof) >= 0
+//@   invariant#1 badLine ==> len(proof) <= G_j() && rd_buf[b] == encBad(G_row(), G_off(), len(proof), G_j(), G_bad(), G_tail())
+//@   invariant#1 truncated ==> len(proof) <= G_j() + 1 && (len(proof) <= G_j() ==> rd_buf[b] == encTr(G_row(), G_off(), len(proof), G_j(), G_part())) && (len(proof) == G_j() + 1 ==> rd_buf[b] == "")
 //@   invariant#1 wellFormed ==> size == G_n() && len(proof) <= G_k() && rd_buf[b] == encRest(G_row(), G_off(), len(proof), G_k(), G_cp())
 //@   invariant#1 wellFormed ==> (forall j int :: 0 <= j && j < len(proof) ==> str(proof[j]) == str(G_row()[G_off() + j]))
 //@   invariant#1[C11.w] oldLineOK(lineOf(input)) && hasLine(input)
@@ -96,3 +120,29 @@ package bastion
 //@                    && str(body_out) == fmt_du(cpSize(text(upd_out))) ++ "\n"
 //@   ensures[C10.map] updated && upd_err == witness.ErrRootMismatch ==> wh_code == 409 && n_hdr == old(n_hdr)
 //@   ensures[C10.map] updated && upd_err == witness.ErrInvalidProof ==> wh_code == 422
+
+// Composition of writer and reader (C11): the body cmd/feedbastion writes for k proof hashes held in (row, off) and
+// checkpoint text cp,
+//     "old 0\n" ++ encPre(row, off, k) ++ "\n" ++ cp        (postcondition of (*bastionClient).Update)
+// is the well-formed input of parseBody's round-trip clause with old size 0,
+//     "old " ++ fmt_du(0) ++ "\n" ++ encRest(row, off, 0, k, cp).
+// Proved by induction on i (downwards from k) on  encPre(i) ++ encRest(i) == encPre(k) ++ "\n" ++ cp.
+//@ func verifLemmaEncodings
+//@   requires 0 <= k
+//@   let row := G_row()
+//@   let off := G_off()
+//@   let cp  := G_cp()
+//@   ensures[C11.comp] cat2("old 0\n" ++ encPre(row, off, k), "\n" ++ cp) == "old " ++ fmt_du(0) ++ "\n" ++ encRest(row, off, 0, k, cp)
+//@   hint encRest_end(row, off, k, k, cp)
+//@   hint encPre_0(row, off)
+//@   hint scat_unit(encRest(row, off, 0, k, cp))
+//@   hint scat_assoc("old 0\n", encPre(row, off, k), "\n" ++ cp)
+//@   hint scat_assoc("old ", cat2("0", "\n"), encRest(row, off, 0, k, cp))
+//@   hint scat_assoc("0", "\n", encRest(row, off, 0, k, cp))
+//@   hint#1 encPre_s(row, off, i)
+//@   hint#1 encRest_step(row, off, i - 1, k, cp)
+//@   hint#1 scat_assoc(encPre(row, off, i - 1), b64enc(str(row[off + (i - 1)])) ++ "\n", encRest(row, off, i, k, cp))
+//@   hint#1 scat_assoc(b64enc(str(row[off + (i - 1)])), "\n", encRest(row, off, i, k, cp))
+//@   invariant#1 0 <= i && i <= k && cat2(encPre(row, off, i), encRest(row, off, i, k, cp)) == cat2(encPre(row, off, k), "\n" ++ cp)
+//@   decreases#1 i
+
